@@ -219,13 +219,13 @@ func mustRead(p string) []byte {
 
 func init() {
 	lib.Register(&lib.Property{
-		ID:    "C04",
-		Level: "exploration",
-		Rule: "builds with file sizes swept over {0,1,16K±1,32K±1,n·64K±1 (n=1..5,65)}, content classes {random, zero, periodic}, many-tiny-file builds, symlinks, empty dirs; both producers (diff-time signing through a source pool that slices every read randomly and yields, and stand-alone signing) compared hash-by-hash against a reference signature written from the specification; every compression setting of the signature stream; Validate (wounds-file mode) and AssertValid on the pristine build must report nothing. distinct = distinct (size/content class or relation label, algorithm)",
+		ID:          "C04",
+		Level:       "exploration",
+		Rule:        "builds with file sizes swept over {0,1,16K±1,32K±1,n·64K±1 (n=1..5,65)}, content classes {random, zero, periodic}, many-tiny-file builds, symlinks, empty dirs; both producers (diff-time signing through a source pool that slices every read randomly and yields, and stand-alone signing) compared hash-by-hash against a reference signature written from the specification; every compression setting of the signature stream; Validate (wounds-file mode) and AssertValid on the pristine build must report nothing. distinct = distinct (size/content class or relation label, algorithm)",
 		Assumptions: []string{"crypto/md5 and the reference weak-hash formula are correct"},
-		Flavors: func(tier string) []string { return []string{"plain", "race"} },
-		Cases: c04Cases,
-		Run:   c04Run,
-		Batch: 20,
+		Flavors:     func(tier string) []string { return []string{"plain", "race"} },
+		Cases:       c04Cases,
+		Run:         c04Run,
+		Batch:       20,
 	})
 }
